@@ -5,7 +5,7 @@ Per widget, for a size of a sizing mode the widget supports: `render(size, focus
 `(cols, rows) == self.pack(size, focus)` (fixed); a cursor, if present, lies inside; `sizing()` tells the truth.
 Children and canvases are opaque protocol objects (contracts/proto_widget.py)."""
 from pyvc.api import *
-from pyvc.api import PROTOCOLS
+from pyvc.api import PROTOCOLS, REGISTRY
 from pyvc.values import cur, is_none, mk_bool
 from contracts.proto_widget import *
 from contracts.C19_space import size_ok
@@ -506,3 +506,35 @@ class widget_pack_box:
     def ensures(old, s, a, result):
         yield "box-size-returned-as-given", both(result[0] == a.size[0], result[1] == a.size[1])
         yield "asks-no-one", len(calls()) == 0
+
+
+def _xc_mixin_classes():
+    """CPython cross-check of the `defcls` engine hook as used here: for every bundled class built on the mixin, the class
+    named to the engine is the one in its MRO, its methods / properties are the ones whose source text is verified, and the
+    closure cell `get_delegate` of each holds attrgetter(<the delegate attribute named in the contract>)."""
+    import operator
+
+    bad = []
+    for alias, cls, attr in MIXIN_USERS:
+        mix = _mixin_class_of(cls)
+        if mix not in cls.__mro__ or mix.__module__ != "urwid.widget.widget":
+            bad.append((alias, "class"))
+        for name in ("render", "rows", "pack", "sizing", "selectable"):
+            raw = _inspect.getattr_static(mix, name)
+            raw = raw.fget if isinstance(raw, property) else raw
+            while "get_delegate" not in getattr(getattr(raw, "__code__", None), "co_freevars", ()) and hasattr(raw, "__wrapped__"):
+                raw = raw.__wrapped__
+            try:
+                cell = raw.__closure__[raw.__code__.co_freevars.index("get_delegate")].cell_contents
+            except (AttributeError, ValueError, TypeError):
+                bad.append((alias, name, "no closure"))
+                continue
+            if not (isinstance(cell, operator.attrgetter) and cell.__reduce__()[1] == (attr,)):
+                bad.append((alias, name, "delegate"))
+    probe = urwid.WidgetPlaceholder(urwid.Divider())
+    if probe.rows((3,)) != 1 or probe.render((3,)).rows() != 1 or probe.sizing() != frozenset((Sizing.FLOW,)):
+        bad.append(("WidgetPlaceholder", "behaviour"))
+    return "mixin-classes-and-closure-cells-agree-with-cpython", not bad, f"{len(MIXIN_USERS)} classes x 5 members; mismatches: {bad[:5]}"
+
+
+REGISTRY[MIX + "render#wrapped-widget"].static_checks = [_xc_mixin_classes]
